@@ -206,6 +206,27 @@ theorem T4_7_monitor_implies_order_discipline (C : Contents Content MetaRec WalR
     (crun (cinit d0) (absTrace C {} 0 tr)).vol = st.pend.filterMap (absP C) :=
   checkOrder_ok_ordChk C tr st h d0
 
+/-- T4.7b **acceptance by the order monitor ⇒ `hflushed`**: if `checkOrder` accepts the real trace and `cpre` is the part
+of its abstraction before the Begin of the meta write, then the concurrent state when the meta write begins has NO
+volatile effect, and the linearisation of `cpre` — the `pre` of T4.1 / T4.2 — satisfies their hypothesis `hflushed`
+and reaches the durable disk of the concurrent state. -/
+theorem T4_7b_monitor_implies_hflushed (C : Contents Content MetaRec WalRec)
+    (tr : List IoEv2) (st : OrderSt) (h : checkOrder tr = .ok st) (d0 : Disk Content MetaRec WalRec LogRec)
+    (cpre crest : List (CEv Content MetaRec WalRec LogRec)) (id : Nat) (m1 : MetaRec)
+    (hsplit : absTrace C {} 0 tr = cpre ++ CEv.effBegin id (.setMeta m1) :: crest) :
+    (crun (cinit d0) cpre).vol = [] ∧
+    (run ⟨d0, []⟩ (lin d0 cpre)).vol = [] ∧
+    (run ⟨d0, []⟩ (lin d0 cpre)).dur = (crun (cinit d0) cpre).dur := by
+  have hord := (checkOrder_ok_ordChk C tr st h d0).1
+  rw [hsplit, cAll_append] at hord
+  have hv : (crun (cinit d0) cpre).vol = [] := by
+    have := hord.2.1
+    simp only [ordChk, Eff.isMeta, if_true] at this
+    exact this.2
+  refine ⟨hv, ?_, ?_⟩
+  · rw [run_lin]; simp [CState.toExec, CState.volEffs, hv]
+  · rw [run_lin]; rfl
+
 /-- T4.7a the same for the recovery performed by `open` (`checkRecoveryOrder`, C03): the abstracted trace passes the
 discipline of the post-switch-over phase — hash-table pages may be rewritten, the WAL is truncated only when no
 hash-table write is volatile, the meta page and the tree files are not written. -/
